@@ -104,6 +104,13 @@ var c02Templates = []tmpl{
 	}},
 	{"global-and-local-same-name", `x := a; mk := func() { x := b; return func() { return x } }; mk()() - x`, func(a, b, c, n int64) tOut { return outInt(b - a) }},
 	{"closure-reads-global-updates", `x := a; g := func() { return x }; x = b; g()`, func(a, b, c, n int64) tOut { return outInt(b) }},
+	// loops between the creation of closures over one variable
+	{"getter-made-before-a-range-loop-sees-the-loop-writes", `mk := func() { x := 0; get := func() { return x }; for _, v := range [a, b] { x = x + v }; return get() }; mk()`, func(a, b, c, n int64) tOut { return outInt(a + b) }},
+	{"getter-before-and-setter-after-a-for-in-loop-share", `mk := func() { x := a; get := func() { return x }; for i in [1, 2] { x = x + i }; set := func(k) { x = k }; set(b); return get() }; mk()`, func(a, b, c, n int64) tOut { return outInt(b) }},
+	{"closures-made-in-successive-iterations-share-an-outer-variable", `mk := func() { x := 0; fs := []; for _, v := range [1, 2] { fs.append(func(d) { x = x + d; return x }) }; fs[0](a); return fs[1](b) }; mk()`, func(a, b, c, n int64) tOut { return outInt(a + b) }},
+	{"getter-made-before-a-range-over-int-loop", `mk := func() { x := a; get := func() { return x }; for i := range 3 { x = x + 1 }; return get() }; mk()`, func(a, b, c, n int64) tOut { return outInt(a + 3) }},
+	{"getter-made-before-a-three-clause-loop", `mk := func() { x := a; get := func() { return x }; for i := 0; i < 3; i++ { x = x + 1 }; return get() }; mk()`, func(a, b, c, n int64) tOut { return outInt(a + 3) }},
+	{"getter-made-inside-a-loop-sees-later-iterations", `mk := func() { x := a; g := nil; for _, v := range [1, 2, 3] { if v == 1 { g = func() { return x } }; x = x + v }; return g() }; mk()`, func(a, b, c, n int64) tOut { return outInt(a + 6) }},
 }
 
 // HarnessC02Closures: lexical capture at depth 1..3 through several escape routes.
